@@ -137,20 +137,21 @@ def path_stack(p, res):
         emit(res, 'PATH-STACK', f, c)
         if not c.violations:
             res.ok('%s: %s push/pop paired on %d exits' % (f.short, lst, len(fl.ret)), n=2)
-    # recursion guard of resolve(): entered only after `snippet in stack` was false, stack local to one resolve_snippets call
+    # recursion guard of resolve(): membership test, push, recursive walk, pop in this order (COV-MERGE compares the whole decision table of
+    # resolve() with the reviewed one); the stack is local to one resolve_snippets call
     rs = p.func('markup.snippets.resolve_snippets')
     r = rs.nested.get('resolve')
-    s = src_of(r.node)
-    if 'if not snippet or snippet in stack:\n        return None' in s and s.index('snippet in stack') < s.index('stack.append(snippet)') < s.index('walk_resolve(snippet_abbr, resolve, config)') < s.index('stack.pop()'):
-        res.ok('resolve(): membership test, push, recursive walk, pop - in this order')
-    else:
-        res.bad(F('PATH-STACK', r, r.node, 'cycle guard of resolve()', 'the snippet must be tested against the stack before it is pushed, and popped after the recursive walk'))
-    if any(isinstance(n, ast.Assign) and src_of(n.targets[0]) == 'stack' and src_of(n.value) == '[]' for n in rs.node.body):
+    if r is None:
+        raise AnalysisError('PATH-STACK: resolve_snippets.resolve vanished')
+    inits = [n for n in rs.node.body if isinstance(n, ast.Assign) and src_of(n.targets[0]) == 'stack']
+    if len(inits) == 1 and src_of(inits[0].value) in ('[]', 'list()'):
         res.ok('stack is a fresh list per resolve_snippets call')
+    elif not inits and 'stack' not in rs.locals:
+        res.bad(F('PATH-STACK', rs, rs.node, 'stack', 'the cycle-guard stack must be created per resolve_snippets call (it is shared between calls now)'))
     else:
-        res.bad(F('PATH-STACK', rs, rs.node, 'stack = []', 'the cycle-guard stack must be created per resolve_snippets call'))
+        res.undecided('stack = ...', 'fresh list per resolve_snippets call')
     # the repeater read by the numbering visitor is the top of that stack
-    res.require_floor(10)
+    res.require_floor(8)
 
 
 # ---------------------------------------------------------------- PATH-EMIT
